@@ -161,6 +161,12 @@ class ExprMixin:
                 if a.t is b.t or a.t == b.t:
                     return a
                 raise Unsupported("merge of different callables")
+            if a.ty == DT and (a.x or b.x):
+                def attr(v, k, d):
+                    x = v.x.get(k, d)
+                    return z3.IntVal(x) if isinstance(x, int) and not isinstance(x, bool) else (z3.BoolVal(x) if isinstance(x, bool) else x)
+                return Val(DT, z3.If(c, a.t, b.t), off=z3.simplify(z3.If(c, attr(a, "off", 0), attr(b, "off", 0))),
+                           aware=z3.simplify(z3.If(c, attr(a, "aware", True), attr(b, "aware", True))))
             return Val(a.ty, z3.If(c, a.t, b.t))
         # coercions
         if a.ty == NONE or b.ty == NONE:
@@ -461,6 +467,8 @@ class ExprMixin:
             r = self.call_method_if_defined(container, "__contains__", [item], st)
             if r is not None:
                 return self.truth(r, st)
+        if ty.name == "SDict" and item.ty == STR and z3.is_string_value(item.t):
+            return z3.BoolVal(item.t.as_string() in container.t)
         if ty == STR and item.ty == STR:
             return z3.Contains(container.t, item.t)
         if ty.name == "Tuple":
@@ -714,6 +722,14 @@ class ExprMixin:
                 return r
         if n == "JV":
             return self.jv_index(obj, idx, st, line)
+        if n == "SDict":
+            if idx.ty == STR and z3.is_string_value(idx.t):
+                k = idx.t.as_string()
+                if k in obj.t:
+                    return obj.t[k]
+                st.raise_if(z3.BoolVal(True), "KeyError", line)
+                return NONE_VAL
+            raise Unsupported("static dict with symbolic key")
         if n == "IntMap":
             return Val(INT, z3.Select(obj.t, idx.t))
         if n == "IntMap2":
@@ -750,6 +766,14 @@ class ExprMixin:
                 k = idx.t.as_string()
                 if k in cd["fields"]:
                     fty = parse_type(cd["fields"][k])
+                    if fty == DT and v.ty == DT:
+                        # class invariant of record datetimes: what is stored is UTC-aware (only the instant is kept)
+                        off, aware = v.x.get("off", 0), v.x.get("aware", True)
+                        ok = z3.And(off == 0 if not isinstance(off, int) else z3.BoolVal(off == 0),
+                                    aware if not isinstance(aware, bool) else z3.BoolVal(aware))
+                        if not z3.is_true(z3.simplify(ok)):
+                            self.oblige(st, f"invariant:{cls.split('.')[-1]}.{k}-is-utc-aware", ok,
+                                        clause="the datetime stored is timezone-aware with UTC offset 0", site=line)
                     st.write(f"{cls}.{k}", sort_of(fty), obj.t, to_sort_term(v, fty))
                     st.write(f"{cls}.{k}!has", B, obj.t, z3.BoolVal(True))
                     if self.write_log is not None:
